@@ -771,7 +771,8 @@ class SVG:
 
                 # stroke may introduce multiple paths
                 assert len(paths) == 1  # oh ye of little faith
-                if paths[0].stroke != "none":
+                # a zero-width stroke paints nothing (Skia would return the hairline, i.e. the shape)
+                if paths[0].stroke != "none" and paths[0].stroke_width != 0:
                     paths = list(self._stroke(paths[0]))
 
                 # Any remaining stroke attributes don't do anything
